@@ -2,6 +2,8 @@ import PysnarkModel.Driver.Proto
 import PysnarkModel.Driver.ProtoLC
 import PysnarkModel.Driver.ProtoSnarkjs
 import PysnarkModel.Driver.ProtoGuard
+import PysnarkModel.Driver.ProtoExit
+import PysnarkModel.Driver.ProtoSelect
 open Pysnark Pysnark.Proto
 
 def handle (line : String) : String :=
@@ -11,6 +13,8 @@ def handle (line : String) : String :=
   | "I" :: rest => ProtoLC.handleInv rest
   | "J" :: rest => ProtoSnarkjs.handleSnarkjs rest
   | "H" :: rest => ProtoGuard.handleHist rest
+  | "X" :: rest => ProtoExit.handleExit rest
+  | "S" :: rest => ProtoSelect.handleSelect rest
   | _ => "bad-line"
 
 partial def loop (h : IO.FS.Stream) (out : IO.FS.Stream) : IO Unit := do
